@@ -75,6 +75,20 @@ def has_nan(x):
     return isinstance(x, (float, np.floating)) and x != x
 
 
+def has_pydate(x):
+    if isinstance(x, (tuple, list)):
+        return any(has_pydate(e) for e in x)
+    return isinstance(x, (D, DT))
+
+
+def native(x):
+    if isinstance(x, tuple):
+        return tuple(native(e) for e in x)
+    if isinstance(x, np.generic) and not isinstance(x, np.datetime64):
+        return x.item()
+    return x
+
+
 def py_equal(p, l):
     """Python-level equality (what a hash map would use); 'True' also when the comparison is not decidable"""
     try:
@@ -246,33 +260,43 @@ def probes_for(model, hier, extra=()):
 # ---------------------------------------------------------------------------------------------
 # the contract
 
-def contract(sink, ix, model, rp, probes=True, extra_probes=(), area=None, group='ctor', onekey=None):
+def contract(sink, ix, model, rp, probes=True, extra_probes=(), area=None, group='ctor', onekey=None, onekey_probes=None):
     """ix: index under test; model: list of labels (tuples for hierarchies) it must present"""
     import static_frame as sf
     kind = area or kind_of(ix)
     hier = isinstance(ix, sf.IndexHierarchy)
     n = len(model)
 
+    state = dict(failed=False)
+
+    def chk(cond, key, what, replay=None):
+        if not cond:
+            state['failed'] = True
+        return sink.check(cond, key, what, replay)
+
+    def flunk(key, what, replay=None):
+        return chk(False, key, what, replay)
+
     def K(c):  # order / lookup checks: keyed by index kind and route group
         return onekey or f'{PID}:{kind}:{group}:{c}'
 
     def KP(c):  # absence probes: a property of the index kind, whatever route produced it
-        return onekey or f'{PID}:{kind}:{c}'
+        return onekey_probes or f'{PID}:{kind}:{c}'
 
     def seq_check(name, thunk, expect, conv=list):
         o = obs(thunk)
         if o[0] == 'exc':
-            return sink.fail(K(f'{name}-raises:{type(o[1]).__name__}'), f'{name} raises {o[1]!r}; expected labels {expect!r}', rp)
+            return flunk(K(f'{name}-raises:{type(o[1]).__name__}'), f'{name} raises {o[1]!r}; expected labels {expect!r}', rp)
         try:
             got = conv(o[1])
         except Exception as e:
-            return sink.fail(K(f'{name}-raises:{type(e).__name__}'), f'{name} result unusable: {e!r}', rp)
+            return flunk(K(f'{name}-raises:{type(e).__name__}'), f'{name} result unusable: {e!r}', rp)
         if not eq_seq(got, expect) and eq_seq(ns_ints_to_dt(got, expect), expect):
-            return sink.fail(KP('ns-datetime-shown-as-int'), f'{name} presents {got!r}, expected {expect!r} (datetime64[ns] labels surface as integers)', rp)
-        return sink.check(eq_seq(got, expect), K(name), f'{name} presents {got!r}, expected {expect!r}', rp)
+            return flunk(KP('ns-datetime-shown-as-int'), f'{name} presents {got!r}, expected {expect!r} (datetime64[ns] labels surface as integers)', rp)
+        return chk(eq_seq(got, expect), K(name), f'{name} presents {got!r}, expected {expect!r}', rp)
 
     o = obs(lambda: len(ix))
-    sink.check(o[0] == 'ok' and o[1] == n, K('len'), f'len(index) gives {o[1]!r}, expected {n} for labels {model!r}', rp)
+    chk(o[0] == 'ok' and o[1] == n, K('len'), f'len(index) gives {o[1]!r}, expected {n} for labels {model!r}', rp)
 
     def rows_of(v):
         if hier:
@@ -282,41 +306,45 @@ def contract(sink, ix, model, rp, probes=True, extra_probes=(), area=None, group
     seq_check('values-order', lambda: ix.values, model, rows_of)
     if hier and n:
         o = obs(lambda: ix.values.shape)
-        sink.check(o[0] == 'ok' and tuple(o[1]) == (n, len(model[0])), K('values-shape'), f'values shape {o[1]!r} for {n} labels of depth {len(model[0])}', rp)
+        chk(o[0] == 'ok' and tuple(o[1]) == (n, len(model[0])), K('values-shape'), f'values shape {o[1]!r} for {n} labels of depth {len(model[0])}', rp)
     seq_check('iter-order', lambda: list(ix), model)
     seq_check('reversed-order', lambda: list(reversed(ix)), model[::-1])
     seq_check('positions', lambda: ix.positions, list(range(n)))
     seq_check('iloc-order', lambda: [ix.iloc[i] for i in range(n)], model)
     if n:
         o = obs(lambda: ix.iloc[n])
-        sink.check(o[0] == 'exc', K('iloc-past-end'), f'iloc[{n}] on an index of {n} labels returned {o[1]!r}', rp)
+        chk(o[0] == 'exc', K('iloc-past-end'), f'iloc[{n}] on an index of {n} labels returned {o[1]!r}', rp)
 
     # presented labels (what the index itself hands out), used for the lookup as well as the model's objects
     o = obs(lambda: list(ix))
     presented = o[1] if o[0] == 'ok' and len(o[1]) == n else [None] * n
     o = obs(lambda: rows_of(ix.values))
     if o[0] == 'ok':
-        sink.check(all_distinct(o[1]), K('labels-not-distinct'), f'values holds repeated labels: {o[1]!r}', rp)
+        chk(all_distinct(o[1]), K('labels-not-distinct'), f'values holds repeated labels: {o[1]!r}', rp)
 
     for i, lab in enumerate(model):
         if has_nan(lab):
             continue  # NaN labels are outside the quantifier
-        forms = [lab]
+        # the label as the index hands it out, its Python-native form, and the model's own object (unless that is a
+        # datetime.date/datetime standing for a datetime64 label: such conversions are a convenience, not the property)
+        forms = []
         if presented[i] is not None and eq(presented[i], lab):
-            forms.append(presented[i])
+            forms.extend([presented[i], native(presented[i])])
+        if not has_pydate(lab) or not forms:
+            forms.append(lab)
         for form in forms:
             o = obs(lambda: ix.loc_to_iloc(form))
             if o[0] == 'exc':
-                sink.fail(K(f'lookup-held-label-raises:{type(o[1]).__name__}'), f'loc_to_iloc({form!r}) raises {o[1]!r}; label is at position {i} of {model!r}', rp)
+                flunk(K(f'lookup-held-label-raises:{type(o[1]).__name__}'), f'loc_to_iloc({form!r}) raises {o[1]!r}; label is at position {i} of {model!r}', rp)
             else:
-                sink.check(is_intlike(o[1]) and o[1] == i, K('lookup-held-label'), f'loc_to_iloc({form!r}) == {o[1]!r}, expected {i} in {model!r}', rp)
+                chk(is_intlike(o[1]) and o[1] == i, K('lookup-held-label'), f'loc_to_iloc({form!r}) == {o[1]!r}, expected {i} in {model!r}', rp)
             o = obs(lambda: form in ix)
             if o[0] == 'exc':
-                sink.fail(K(f'contains-held-label-raises:{type(o[1]).__name__}'), f'({form!r} in index) raises {o[1]!r}', rp)
+                flunk(K(f'contains-held-label-raises:{type(o[1]).__name__}'), f'({form!r} in index) raises {o[1]!r}', rp)
             else:
-                sink.check(o[1] is True or o[1] == True, K('contains-held-label'), f'({form!r} in index) is {o[1]!r} for held labels {model!r}', rp)  # noqa: E712
+                chk(o[1] is True or o[1] == True, K('contains-held-label'), f'({form!r} in index) is {o[1]!r} for held labels {model!r}', rp)  # noqa: E712
 
-    if probes:
+    if probes and not state['failed']:  # absence probes only on an index whose order/lookup views are sound
         seen = set()
         for pc, p in probes_for(model, hier, extra_probes):
             kp = (pc, norm(p), type(p).__name__)
@@ -327,11 +355,11 @@ def contract(sink, ix, model, rp, probes=True, extra_probes=(), area=None, group
                 continue  # Python-equal to a held label (incl. 1.0 vs 1, True vs 1): nothing demanded
             o = obs(lambda: p in ix)
             if o[0] == 'ok':
-                sink.check(not o[1], KP(f'contains-absent-label:{pc}'), f'({p!r} in index) is {o[1]!r} but the held labels are {model!r}', rp)
+                chk(not o[1], KP(f'contains-absent-label:{pc}'), f'({p!r} in index) is {o[1]!r} but the held labels are {model!r}', rp)
             # an exception from `in` for a foreign-typed probe is tolerated (see report)
             o = obs(lambda: ix.loc_to_iloc(p))
             if o[0] == 'ok':
-                sink.check(not is_intlike(o[1]), KP(f'absent-label-resolves:{pc}'), f'loc_to_iloc({p!r}) returned position {o[1]!r} but the held labels are {model!r}', rp)
+                chk(not is_intlike(o[1]), KP(f'absent-label-resolves:{pc}'), f'loc_to_iloc({p!r}) returned position {o[1]!r} but the held labels are {model!r}', rp)
 
 
 # ---------------------------------------------------------------------------------------------
@@ -453,6 +481,10 @@ def group_of(route):
     return 'other'
 
 
+# routes whose known failure is one root cause surfacing through several views: all checks share one key
+ROUTE_ONEKEY = {'level_drop-inner': f'{PID}:ih:level_drop-inner:offsets-not-recomputed'}
+
+
 def result_rows(ix):
     import static_frame as sf
     v = ix.values
@@ -461,13 +493,14 @@ def result_rows(ix):
     return list(v)
 
 
-def eval_route(rep, base_kind, route, thunk, expect, rp, may_raise=False, only=None, group=None, empty=False, onekey=None):
+def eval_route(rep, base_kind, route, thunk, expect, rp, may_raise=False, only=None, group=None, empty=False, onekey=None, onekey_probes=None):
     """expect: ('model', L) | ('set', L) | ('self',) | ('reject', 'duplicates'|'non-tree')"""
     import static_frame as sf
     if only is not None and route != only:
         return
     rp = dict(rp, route=route)
     group = group or group_of(route)
+    onekey = onekey or ROUTE_ONEKEY.get(route)
     o = obs(thunk)
     nontrivial = expect[0] == 'reject' or (len(expect) > 1 and len(expect[1]) > 0)
     rep.count(distinct_key=(tuple(sorted((k, str(v)) for k, v in rp.items())) if nontrivial else None),
@@ -478,7 +511,7 @@ def eval_route(rep, base_kind, route, thunk, expect, rp, may_raise=False, only=N
             rep.check(is_init_error(e), f'{PID}:{base_kind}:{route}:rejected-with-{type(e).__name__}',
                       f'{expect[1]} rejected, but with {e!r} instead of an index-initialisation error', rp)
         elif not may_raise:
-            rep.fail(f'{PID}:{base_kind}:{group}:raises-{type(e).__name__}' + (':empty-index' if empty else ''), f'route {route} raises {e!r} on valid labels; expected {expect!r}', rp)
+            rep.fail(f'{PID}:{"any" if empty else base_kind}:{group}:raises-{type(e).__name__}' + (':empty-index' if empty else ''), f'route {route} raises {e!r} on valid labels; expected {expect!r}', rp)
         return
     res = o[1]
     if not isinstance(res, (sf.Index, sf.IndexHierarchy)):
@@ -499,7 +532,7 @@ def eval_route(rep, base_kind, route, thunk, expect, rp, may_raise=False, only=N
         if expect[0] == 'set':
             rep.check({norm(x) for x in model} == {norm(x) for x in expect[1]} and len(model) == len({norm(x) for x in expect[1]}),
                       f'{PID}:{base_kind}:{route}:label-set', f'route {route} holds {model!r}, expected the label set {expect[1]!r}', rp)
-    contract(rep, res, model, rp, group=group, onekey=onekey)
+    contract(rep, res, model, rp, group=group, onekey=onekey, onekey_probes=onekey_probes)
 
 
 def expect_of(labels, hier=False):
@@ -689,7 +722,16 @@ def flat_cases(tier):
     for spec in range(len(CTOR_DTYPE)):
         for cls in ('Index', 'IndexGO'):
             yield dict(area='ctor-dtype', li=spec, cls=cls)
+    for spec in range(len(SPECIAL_LISTS)):
+        for cls in ('Index', 'IndexGO'):
+            yield dict(area='special', li=spec, cls=cls)
 
+
+SPECIAL_LISTS = [
+    # a datetime64 label inside an object-dtype index: LocMap casts all labels to the key's dtype
+    ([dt('2020-01-01', 'D'), 'a', 1], 'datetime64-label-in-object-index'),
+    ([dt('2020-01-01', 'D'), dt('2020-01', 'M')], 'datetime64-labels-of-two-units'),
+]
 
 CTOR_DTYPE = [([3, 1, 2], 'float64'), ([3, 1], 'str'), ([1.5, 2.7], 'int64'), ([1.5, 1.2], 'int64'), ([1, 2], 'object'), (['2020-01-01', '2020-02-01'], 'datetime64[D]'),
               (['2020-01-01', '2020-01-02'], 'datetime64[M]'), ([True, False], 'int64'), ([0, 1, 2], 'bool')]
@@ -825,6 +867,10 @@ def eval_flat_case(rep, case, only=None):
         kind0 = kind_of(ix)
         for route, thunk, expect, may_raise, group in flat_routes(ix, model, [40, 41, 42], ['zz', None, 2.5], True, 'int', type(ix), src_dtype=np.int64):
             eval_route(rep, kind0, route, thunk, expect, rp, may_raise, only=only, group=group, empty=not model)
+    elif area == 'special':
+        labels, tag = SPECIAL_LISTS[case['li']]
+        cls = cls_by_name(case['cls'])
+        eval_route(rep, 'plain', 'ctor-list', lambda: cls(list(labels)), expect_of(labels), rp, only=only, onekey=f'{PID}:plain:{tag}', onekey_probes=f'{PID}:plain:{tag}')
     elif area == 'ctor-dtype':
         labels, dtp = CTOR_DTYPE[case['li']]
         cls = cls_by_name(case['cls'])
@@ -833,4 +879,835 @@ def eval_flat_case(rep, case, only=None):
             warnings.simplefilter('ignore')
             conv = list(np.array(labels).astype(dtp))
         eval_route(rep, kind0, 'ctor-dtype-arg', lambda: cls(list(labels), dtype=np.dtype(dtp)), expect_of(conv), rp, only=only,
-                   onekey=f'{PID}:plain:ctor-dtype-arg:map-keyed-by-uncast-labels')
+                   onekey=f'{PID}:plain:ctor-dtype-arg:map-keyed-by-uncast-labels', onekey_probes=f'{PID}:plain:ctor-dtype-arg:map-keyed-by-uncast-labels')
+
+
+# ---------------------------------------------------------------------------------------------
+# hierarchies
+
+D1, D2, D3 = D(2020, 1, 1), D(2020, 1, 2), D(2019, 12, 31)
+IH_TREES = {
+    't2a': dict(rows=[('a', 1), ('a', 2), ('b', 1)], ctors=None, fresh=[('b', 7), ('c', 1), ('c', 2), ('d', 1)], sortable=True, simple=True),
+    't2b': dict(rows=[('b', 2), ('a', 1), ('a', 3), ('c', 2)], ctors=None, fresh=[('c', 9), ('d', 2), ('d', 3), ('e', 1)], sortable=True, simple=True),
+    't2i': dict(rows=[(0, 0), (0, 1), (1, 0)], ctors=None, fresh=[(1, 5), (2, 0), (2, 1), (3, 0)], sortable=True, simple=True),
+    't2one': dict(rows=[('a', 1)], ctors=None, fresh=[('a', 2), ('b', 1), ('b', 2), ('c', 1)], sortable=True, simple=True),
+    't2p': dict(rows=[('a', 1), ('a', 2), ('b', 1), ('b', 2)], ctors=None, fresh=[('b', 3), ('c', 1), ('c', 2), ('d', 1)], sortable=True, simple=True),
+    't3a': dict(rows=[('a', 1, 'x'), ('a', 1, 'y'), ('a', 2, 'x'), ('b', 1, 'x')], ctors=None, fresh=[('b', 1, 'z'), ('b', 2, 'x'), ('c', 1, 'x'), ('c', 1, 'y')], sortable=True, simple=True),
+    't3b': dict(rows=[(1, 'p', 10), (2, 'q', 20)], ctors=None, fresh=[(2, 'q', 30), (2, 'r', 10), (3, 'p', 10), (3, 'p', 20)], sortable=True, simple=True),
+    't4a': dict(rows=[('a', 1, 'x', 0), ('a', 1, 'x', 1), ('a', 2, 'y', 0), ('b', 1, 'x', 0)], ctors=None, fresh=[('b', 1, 'x', 5), ('b', 1, 'y', 0), ('b', 2, 'x', 0), ('c', 1, 'x', 0)], sortable=True, simple=True),
+    't2d': dict(rows=[(D1, 'a'), (D1, 'b'), (D3, 'a')], ctors=('IndexDate', 'Index'), fresh=[(D3, 'c'), (D2, 'a'), (D2, 'b'), (D(2021, 1, 1), 'a')], sortable=True, simple=False),
+    't2dd': dict(rows=[('a', D1), ('a', D3), ('b', D1)], ctors=('Index', 'IndexDate'), fresh=[('b', D2), ('c', D1), ('c', D2), ('d', D1)], sortable=True, simple=False),
+    't2m': dict(rows=[('a', None), ('a', 1), (2, 'x')], ctors=None, fresh=[(2, 'y'), (3, None), (3, 1), ('z', 'z')], sortable=False, simple=False),
+    't2e': dict(rows=[], ctors=None, fresh=[('a', 1), ('a', 2), ('b', 1), ('b', 2)], sortable=True, simple=True),
+}
+
+IH_BAD = {
+    'interleave2': [('a', 1), ('b', 1), ('a', 2)],
+    'dup-adjacent2': [('a', 1), ('a', 1)],
+    'dup-apart2': [('a', 1), ('a', 2), ('a', 1)],
+    'dup-other-parent2': [('a', 1), ('b', 1), ('a', 1)],
+    'interleave3-outer': [('a', 1, 'x'), ('b', 1, 'x'), ('a', 2, 'x')],
+    'interleave3-mid': [('a', 1, 'x'), ('a', 2, 'x'), ('a', 1, 'y')],
+    'dup3': [('a', 1, 'x'), ('a', 1, 'x')],
+    'interleave-int': [(0, 0), (1, 0), (0, 1)],
+    'interleave-date': [(D1, 'a'), (D2, 'a'), (D1, 'b')],
+    'interleave4-deep': [('a', 1, 'x', 0), ('a', 1, 'y', 0), ('a', 1, 'x', 1)],
+}
+IH_BAD_FORMS = ('from_labels-list', 'from_labels-gen', 'from_labels-array', 'set_index_hierarchy', 'from_type_blocks', 'series-index-ctor', 'from_labels-go-list', 'from_labels-name',
+                'from_records-index-ctor')
+
+
+def ctor_objs(ctors, go=False):
+    import static_frame as sf
+    if ctors is None:
+        return None
+    return tuple(getattr(sf, c + ('GO' if go else '')) for c in ctors)
+
+
+def rows_array(rows):
+    a = np.empty((len(rows), len(rows[0]) if rows else 2), dtype=object)
+    for i, r in enumerate(rows):
+        for j, v in enumerate(r):
+            a[i, j] = v
+    return a
+
+
+def tree_dict(rows):
+    depth = len(rows[0])
+    tree = {}
+    for r in rows:
+        cur = tree
+        for d, v in enumerate(r):
+            if d < depth - 2:
+                cur = cur.setdefault(v, {})
+            elif d == depth - 2:
+                cur = cur.setdefault(v, [])
+            else:
+                cur.append(v)
+    return tree
+
+
+def is_product(rows):
+    if not rows:
+        return None
+    depth = len(rows[0])
+    levels = [list(dict.fromkeys(r[d] for r in rows)) for d in range(depth)]
+    return levels if [tuple(p) for p in itertools.product(*levels)] == [tuple(r) for r in rows] else None
+
+
+def build_ih(cls, rows, how, ctors):
+    """every public construction route for a hierarchy holding `rows`"""
+    import static_frame as sf
+    go = not cls.STATIC
+    ic = ctor_objs(ctors, go)
+    kw = dict(index_constructors=ic) if ic else {}
+    depth = len(rows[0]) if rows else 2
+    if how == 'from_labels-list':
+        return cls.from_labels(list(rows), depth_reference=depth, **kw)
+    if how == 'from_labels-go-list':
+        return sf.IndexHierarchyGO.from_labels(list(rows), depth_reference=depth, **kw)
+    if how == 'from_labels-name':
+        return cls.from_labels(list(rows), name=('n',) * depth, depth_reference=depth, **kw)
+    if how == 'from_labels-gen':
+        return cls.from_labels((r for r in rows), depth_reference=depth, **kw)
+    if how == 'from_labels-lists':
+        return cls.from_labels([list(r) for r in rows], depth_reference=depth, **kw)
+    if how == 'from_labels-array':
+        return cls.from_labels(rows_array(rows), depth_reference=depth, **kw)
+    if how == 'from_tree':
+        if ic:
+            return cls(cls._LEVEL_CONSTRUCTOR.from_tree(tree_dict(rows), index_constructors=ic))
+        return cls.from_tree(tree_dict(rows))
+    if how == 'from_product':
+        levels = is_product(rows)
+        return cls.from_product(*[(ic[d](lv) if ic else lv) for d, lv in enumerate(levels)])
+    if how == 'from_index_items':
+        groups = {}
+        for r in rows:
+            groups.setdefault(r[0], []).append(r[1])
+        inner = (ic[1] if ic else (sf.IndexGO if go else sf.Index))
+        return cls.from_index_items(((k, inner(v)) for k, v in groups.items()), index_constructor=(ic[0] if ic else None))
+    if how == 'from_labels_delimited':
+        return cls.from_labels_delimited(['|'.join(repr(v) for v in r) for r in rows], delimiter='|')
+    if how == 'from_labels-continuation':
+        tok, last, out = '~', [object()] * depth, []
+        for r in rows:
+            out.append(tuple(tok if (d < depth - 1 and v == last[d] and all(r[k] == last[k] for k in range(d))) else v for d, v in enumerate(r)))
+            last = list(r)
+        return cls.from_labels(out, continuation_token=tok, **kw)
+    if how == 'from_labels-reorder':
+        shuffled = list(rows[::2]) + list(rows[1::2])
+        return cls.from_labels(shuffled, reorder_for_hierarchy=True, **kw)
+    if how == 'set_index_hierarchy':
+        f = sf.Frame.from_records([list(r) + [0] for r in rows], columns=tuple(range(depth + 1)))
+        return f.set_index_hierarchy(list(range(depth)), index_constructors=ic).index if ic else f.set_index_hierarchy(list(range(depth))).index
+    if how == 'from_type_blocks':
+        from static_frame.core.type_blocks import TypeBlocks
+        tb = TypeBlocks.from_blocks([as_array([r[d] for r in rows], object) if len({type(r[d]) for r in rows}) > 1 or any(isinstance(r[d], (D, tuple)) for r in rows) else np.array([r[d] for r in rows])
+                                     for d in range(depth)])
+        return cls._from_type_blocks(tb, **kw)
+    if how == 'series-index-ctor':
+        mk = (lambda labels: cls.from_labels(labels, **kw))
+        return sf.Series(np.arange(len(rows)), index=list(rows), index_constructor=mk).index
+    if how == 'from_records-index-ctor':
+        mk = (lambda labels: cls.from_labels(labels, **kw))
+        return sf.Frame.from_records([[i] for i in range(len(rows))], index=list(rows), index_constructor=mk).index
+    if how == 'ctor-from-ih':
+        return cls(sf.IndexHierarchy.from_labels(list(rows), depth_reference=depth, **(dict(index_constructors=ctor_objs(ctors)) if ctors else {})))
+    if how == 'ctor-from-ihgo':
+        return cls(sf.IndexHierarchyGO.from_labels(list(rows), depth_reference=depth, **(dict(index_constructors=ctor_objs(ctors, True)) if ctors else {})))
+    raise KeyError(how)
+
+
+IH_HOWS = ('from_labels-list', 'from_labels-gen', 'from_labels-lists', 'from_labels-array', 'from_labels-name', 'from_tree', 'from_product', 'from_index_items', 'from_labels_delimited',
+           'from_labels-continuation', 'from_labels-reorder', 'set_index_hierarchy', 'from_type_blocks', 'series-index-ctor', 'from_records-index-ctor', 'ctor-from-ih', 'ctor-from-ihgo')
+
+
+def how_applies(how, rows, info):
+    if not rows:
+        return how in ('from_labels-list', 'from_labels-gen', 'from_labels-array', 'ctor-from-ih', 'ctor-from-ihgo')
+    if how == 'from_product':
+        return is_product(rows) is not None
+    if how == 'from_index_items':
+        return len(rows[0]) == 2
+    if how == 'from_labels_delimited':
+        return info['simple']
+    if how == 'from_labels-continuation':
+        return info['simple'] and not any('~' in r for r in rows)
+    return True
+
+
+def ih_cases(tier):
+    for tid, info in IH_TREES.items():
+        for cls in ('IndexHierarchy', 'IndexHierarchyGO'):
+            for how in IH_HOWS:
+                if cls.endswith('GO') and how in ('series-index-ctor', 'from_records-index-ctor'):
+                    continue  # containers refuse grow-only indices on the index axis
+                if how_applies(how, info['rows'], info):
+                    yield dict(area='ih', tree=tid, cls=cls, how=how)
+    for bid in IH_BAD:
+        for cls in ('IndexHierarchy', 'IndexHierarchyGO'):
+            for how in IH_BAD_FORMS:
+                if cls.endswith('GO') and how in ('series-index-ctor', 'from_records-index-ctor'):
+                    continue
+                yield dict(area='ih-bad', bad=bid, cls=cls, how=how)
+    for cls in ('IndexHierarchy', 'IndexHierarchyGO'):
+        for spec in IH_BAD_SPECIAL:
+            yield dict(area='ih-bad-special', spec=spec, cls=cls)
+
+
+IH_BAD_SPECIAL = ('from_tree-dup-leaf', 'from_product-dup-outer', 'from_product-dup-inner', 'from_index_items-dup-outer', 'from_tree-dup-leaf-depth3', 'level_add-on-dup-array',
+                  'from_labels-inconsistent-depth')
+
+
+def build_bad_special(cls, spec):
+    import static_frame as sf
+    if spec == 'from_tree-dup-leaf':
+        return cls.from_tree({'a': [1, 2], 'b': [3, 3]})
+    if spec == 'from_tree-dup-leaf-depth3':
+        return cls.from_tree({'a': {1: ['x', 'y']}, 'b': {1: ['x'], 2: ['y', 'y']}})
+    if spec == 'from_product-dup-outer':
+        return cls.from_product(['a', 'b', 'a'], [1, 2])
+    if spec == 'from_product-dup-inner':
+        return cls.from_product(['a', 'b'], [1, 2, 1])
+    if spec == 'from_index_items-dup-outer':
+        return cls.from_index_items([('a', sf.Index([1, 2])), ('b', sf.Index([1])), ('a', sf.Index([3]))])
+    if spec == 'level_add-on-dup-array':
+        return cls.from_product(['a'], np.array([1, 1]))
+    if spec == 'from_labels-inconsistent-depth':
+        return cls.from_labels([('a', 1), ('b',)])
+    raise KeyError(spec)
+
+
+def ih_routes(ih, rows, info, cls, ctors):
+    """derivation routes from a hierarchy `ih` presenting `rows`"""
+    import static_frame as sf
+    n = len(rows)
+    depth = len(rows[0]) if rows else 2
+    go = not cls.STATIC
+    ic = ctor_objs(ctors, go)
+    kw = dict(index_constructors=ic) if ic else {}
+    fresh = info['fresh']
+    sortable = info['sortable']
+    R = []
+
+    def add(route, thunk, expect, may_raise=False, group=None):
+        R.append((route, thunk, expect, may_raise, group))
+
+    H = lambda x: expect_of(x, hier=True)  # noqa: E731
+    add('ctor-from-index', lambda: cls(ih), ('model', rows))
+    add('ctor-twin-class', lambda: (sf.IndexHierarchy if go else sf.IndexHierarchyGO)(ih), ('model', rows))
+    add('from_labels-values', lambda: cls.from_labels(ih.values, depth_reference=depth, **kw), ('model', rows))
+    add('from_labels-iter', lambda: cls.from_labels(iter(ih), depth_reference=depth, **kw), ('model', rows))
+    add('rename', lambda: ih.rename('nm'), ('model', rows))
+    add('copy', lambda: ih.copy(), ('model', rows))
+    add('deepcopy', lambda: copy.deepcopy(ih), ('model', rows))
+    add('iloc-rev-list', lambda: ih.iloc[list(range(n))[::-1]], H(rows[::-1]))
+    add('iloc-rev-slice', lambda: ih.iloc[::-1], H(rows[::-1]))
+    add('iloc-tail', lambda: ih.iloc[1:], H(rows[1:]))
+    add('iloc-step2', lambda: ih.iloc[::2], H(rows[::2]))
+    add('iloc-bool', lambda: ih.iloc[np.arange(n) % 2 == 1], H(rows[1::2]))
+    if n:
+        add('iloc-list-repeat', lambda: ih.iloc[[0, n - 1, 0]], ('reject', 'duplicates'))
+        add('iloc-last-first', lambda: ih.iloc[[n - 1, 0]], H([rows[-1], rows[0]] if n > 1 else None) if n > 1 else ('reject', 'duplicates'))
+        add('loc-list', lambda: ih.loc[[rows[-1], rows[0]]] if n > 1 else ih.loc[[rows[0]]], H([rows[-1], rows[0]]) if n > 1 else ('model', rows[:1]))
+        add('loc-slice', lambda: ih.loc[rows[n // 2]:], H(rows[n // 2:]))
+        add('loc-hloc-outer', lambda: ih.loc[sf.HLoc[[rows[0][0]]]], H([r for r in rows if eq(r[0], rows[0][0])]))
+        add('loc-bool', lambda: ih.loc[np.arange(n) % 2 == 0], H(rows[::2]))
+    if n > 2:
+        order = [0, 2, 1] + list(range(3, n))
+        add('iloc-swap-1-2', lambda: ih.iloc[order], H([rows[i] for i in order]))
+    add('relabel-identity', lambda: ih.relabel(lambda x: tuple(x)), ('model', rows))
+    if n:
+        add('relabel-dict-fresh', lambda: ih.relabel({rows[-1]: fresh[0]}), H(rows[:-1] + [fresh[0]]))
+        add('relabel-fn-outer-tag', lambda: ih.relabel(lambda x: (('t', x[0]) if False else x[0],) + tuple(x[1:])), ('model', rows))
+    if n > 1:
+        add('relabel-dict-collide', lambda: ih.relabel({rows[0]: rows[1]}), ('reject', 'duplicates'))
+        add('relabel-fn-constant', lambda: ih.relabel(lambda x: fresh[0]), ('reject', 'duplicates'))
+    for rname, k in (('roll1', 1), ('roll-1', -1), ('roll-len', n), ('roll0', 0)):
+        kk = (k % n) if n else 0
+        add(rname, (lambda k=k: ih.roll(k)), H((rows[-kk:] + rows[:-kk]) if kk else rows))
+    if sortable:
+        add('sort-asc', lambda: ih.sort(), ('model', sorted(rows)))
+        add('sort-desc', lambda: ih.sort(ascending=False), ('model', sorted(rows, reverse=True)))
+    oth = rows[1:] + [fresh[0]]
+    mr = not sortable
+    if is_tree_order(oth):
+        mko = lambda: cls.from_labels(list(oth), **kw)  # noqa: E731
+        add('union-index', lambda: ih.union(mko()), ('set', rows + [fresh[0]]), may_raise=mr)
+        add('intersection-index', lambda: ih.intersection(mko()), ('set', rows[1:]), may_raise=mr)
+        add('difference-index', lambda: ih.difference(mko()), ('set', rows[:1]), may_raise=mr)
+    add('union-self', lambda: ih.union(cls.from_labels(list(rows), depth_reference=depth, **kw)), ('set', rows), may_raise=mr)
+    add('difference-self', lambda: ih.difference(cls.from_labels(list(rows), depth_reference=depth, **kw)), ('set', []), may_raise=mr)
+    add('level_add', lambda: ih.level_add('x'), ('model', [('x',) + r for r in rows]))
+    add('level_add-after-values', lambda: (ih.values, ih.level_add(9))[1], ('model', [(9,) + r for r in rows]))
+    if n:
+        if depth == 2:
+            add('level_drop-outer', lambda: ih.level_drop(1), expect_of([r[1] for r in rows]))
+            add('level_drop-inner', lambda: ih.level_drop(-1), ('model', list(dict.fromkeys(r[0] for r in rows))))
+        else:
+            add('level_drop-outer', lambda: ih.level_drop(1), H([r[1:] for r in rows]))
+            add('level_drop-inner', lambda: ih.level_drop(-1), ('model', list(dict.fromkeys(r[:-1] for r in rows))))
+            add('level_drop-outer-2', lambda: ih.level_drop(2), expect_of([r[2] for r in rows]) if depth == 3 else H([r[2:] for r in rows]))
+        add('level_add-level_drop', lambda: ih.level_add('x').level_drop(1), ('model', rows))
+    add('flat', lambda: ih.flat(), ('model', rows))
+    add('flat-level-roundtrip', lambda: cls.from_labels(ih.flat().values, depth_reference=depth, **kw), ('model', rows))
+    if info['simple'] and n:
+        add('astype-all-str', lambda: ih.astype(str), H([tuple(str(v) for v in r) for r in rows]))
+        for d in range(depth):
+            if all(isinstance(r[d], int) for r in rows):
+                add(f'astype-depth{d}-float', (lambda d=d: ih.astype[d](float)), ('model', [r[:d] + (float(r[d]),) + r[d + 1:] for r in rows]))
+    if n:
+        dm = list(range(depth))[::-1]
+        add('rehierarch-reversed', lambda: ih.rehierarch(dm), ('set', [tuple(r[i] for i in dm) for r in rows]))
+    add('series-index', lambda: sf.Series(np.arange(n), index=ih).index, ('model', rows))
+    add('series-iloc-tail-index', lambda: sf.Series(np.arange(n), index=ih).iloc[1:].index, H(rows[1:]))
+    add('frame-columns', lambda: (sf.FrameGO if go else sf.Frame)(np.arange(n).reshape(1, n), columns=ih).columns, ('model', rows))
+    if n:
+        add('frame-T-index', lambda: sf.Frame(np.arange(n).reshape(1, n), columns=ih).T.index, ('model', rows))
+        add('series-hloc-index', lambda: sf.Series(np.arange(n), index=ih).loc[sf.HLoc[[rows[-1][0]]]].index, H([r for r in rows if eq(r[0], rows[-1][0])]))
+        add('frame-unset-set-index', lambda: sf.Frame(np.arange(n).reshape(n, 1), index=ih, columns=('v',)).unset_index().set_index_hierarchy(
+            [f'__index{d}__' for d in range(depth)], drop=True, **kw).index, ('model', rows))
+    return R
+
+
+def eval_ih_case(rep, case, only=None):
+    import static_frame as sf
+    rp = dict(case)
+    cls = cls_by_name(case['cls'])
+    if case['area'] == 'ih-bad':
+        rows = IH_BAD[case['bad']]
+        ctors = ('IndexDate', 'Index') if case['bad'] == 'interleave-date' else None
+        why = 'duplicates' if not all_distinct(rows) else 'non-tree'
+        eval_route(rep, 'ih', f"ctor-{case['how']}", lambda: build_ih(cls, rows, case['how'], ctors), ('reject', why), rp, only=only)
+        return
+    if case['area'] == 'ih-bad-special':
+        eval_route(rep, 'ih', f"ctor-{case['spec']}", lambda: build_bad_special(cls, case['spec']), ('reject', 'duplicates'), rp, only=only)
+        return
+    info = IH_TREES[case['tree']]
+    rows, ctors, how = list(info['rows']), info['ctors'], case['how']
+    expect = ('model', rows) if how != 'from_labels-reorder' else ('set', rows)
+    eval_route(rep, 'ih', f'ctor-{how}', lambda: build_ih(cls, rows, how, ctors), expect, rp, only=only)
+    if how not in ('from_labels-list', 'from_tree', 'from_product', 'from_index_items', 'from_type_blocks'):
+        return
+    o = obs(lambda: build_ih(cls, rows, how, ctors))
+    if o[0] == 'exc':
+        return
+    for route, thunk, expect, may_raise, group in ih_routes(o[1], rows, info, cls, ctors):
+        eval_route(rep, 'ih', route, thunk, expect, rp, may_raise, only=only, group=group, empty=not rows)
+
+
+# ---------------------------------------------------------------------------------------------
+# grow-only histories
+
+def type_class(x):
+    if isinstance(x, (bool, np.bool_)):
+        return 'bool'
+    if isinstance(x, (int, np.integer)):
+        return 'int'
+    if isinstance(x, (float, np.floating)):
+        return 'float'
+    if isinstance(x, str):
+        return 'str'
+    if isinstance(x, (np.datetime64, D, DT)):
+        return 'date'
+    if isinstance(x, tuple):
+        return ('tuple',) + tuple(type_class(e) for e in x)
+    return type(x).__name__
+
+
+def label_status(v, c):
+    """'dup': v is a held label of c; 'ambig': only Python-equal to one of another type (1.0 vs 1, True vs 1); 'new'"""
+    st = 'new'
+    for l in c:
+        if py_equal(v, l):
+            if type_class(v) == type_class(l):
+                return 'dup'
+            st = 'ambig'
+    return st
+
+
+FLAT_BASES = {
+    'go-int': dict(cls='IndexGO', labels=[3, 1], fresh=[40, 41, 42, 43, 44, 45, 46, 47], other=['zz', 'yy', 'xx', 'ww', 'vv', 'uu', 'tt', 'ss'], pyeq=3.0),
+    'go-str': dict(cls='IndexGO', labels=['a', 'b'], fresh=['p', 'q', 'r', 's', 't', 'u', 'v', 'w'], other=[7, 8, 9, 10, 11, 12, 13, 14], pyeq=None),
+    'go-empty': dict(cls='IndexGO', labels=[], fresh=['p', 'q', 'r', 's', 't', 'u', 'v', 'w'], other=[7, 8, 9, 10, 11, 12, 13, 14], pyeq=None),
+    'go-float': dict(cls='IndexGO', labels=[1.5, 2.0], fresh=[10.5, 11.5, 12.5, 13.5, 14.5, 15.5, 16.5, 17.5], other=['zz', 'yy', 'xx', 'ww', 'vv', 'uu', 'tt', 'ss'], pyeq=2),
+    'go-mixed': dict(cls='IndexGO', labels=[1, 'a', None], fresh=['p', 50, ('q',), 2.5, 'r', 51, ('s',), 3.5], other=[D(2030, 1, i) for i in range(1, 9)], pyeq=True),
+    'go-tuple': dict(cls='IndexGO', labels=[('a', 1)], fresh=[('z', 9), ('z', 8), ('y', 7), ('y', 6), ('x', 5), ('x', 4), ('w', 3), ('w', 2)], other=['zz', 5, 'yy', 6, 'xx', 7, 'ww', 8], pyeq=None),
+    'go-bool': dict(cls='IndexGO', labels=[False], fresh=[True, 'b', 'c', 'd', 'e', 'f', 'g', 'h'], other=[5, 6, 7, 8, 9, 10, 11, 12], pyeq=0),
+    'go-from-static': dict(cls='IndexGO', labels=[3, 1], via='static', fresh=[40, 41, 42, 43, 44, 45, 46, 47], other=['zz', 'yy', 'xx', 'ww', 'vv', 'uu', 'tt', 'ss'], pyeq=1.0),
+    'go-dt64': dict(cls='IndexGO', labels=[dt('2020-01-01', 'D'), dt('2019-01-01', 'D')], via='array', fresh=[dt(f'2030-01-0{i}', 'D') for i in range(1, 9)],
+                    other=[dt(f'2031-01-0{i}', 'D') for i in range(1, 9)], pyeq=None, onekey=f'{PID}:plain:datetime64-label-in-object-index'),
+    'auto3': dict(cls='IndexGO', labels=[0, 1, 2], via='factory', fresh=[40, 41, 42, 43, 44, 45, 46, 47], other=['zz', 'yy', 'xx', 'ww', 'vv', 'uu', 'tt', 'ss'], pyeq=1.0),
+    'auto0': dict(cls='IndexGO', labels=[], via='factory', fresh=[40, 41, 42, 43, 44, 45, 46, 47], other=['zz', 'yy', 'xx', 'ww', 'vv', 'uu', 'tt', 'ss'], pyeq=None),
+    'auto-framego': dict(cls='IndexGO', labels=[0, 1, 2], via='framego', fresh=[40, 41, 42, 43, 44, 45, 46, 47], other=['zz', 'yy', 'xx', 'ww', 'vv', 'uu', 'tt', 'ss'], pyeq=True),
+    'date-go': dict(cls='IndexDateGO', labels=[dt('2020-01-01', 'D'), dt('2020-01-03', 'D')], unit='D', pyeq=None),
+    'year-go': dict(cls='IndexYearGO', labels=[dt('2020', 'Y')], unit='Y', pyeq=None),
+    'second-go': dict(cls='IndexSecondGO', labels=[], unit='s', pyeq=None),
+}
+
+
+def build_flat_base(bid):
+    import static_frame as sf
+    from static_frame.core.index_auto import IndexAutoFactory
+    b = FLAT_BASES[bid]
+    cls = cls_by_name(b['cls'])
+    via = b.get('via')
+    if via == 'factory':
+        return IndexAutoFactory.from_optional_constructor(len(b['labels']), default_constructor=sf.IndexGO)
+    if via == 'framego':
+        return sf.FrameGO(np.arange(2 * len(b['labels'])).reshape(2, len(b['labels']))).columns
+    if via == 'static':
+        return cls(sf.Index(list(b['labels'])))
+    if via == 'array':
+        return cls(np.array(b['labels']))
+    return cls(list(b['labels']))
+
+
+FLAT_OPS = 'AONDQEGXR'
+
+
+def alt_form(v, k):
+    """another accepted spelling of a datetime64 label (constructor-style conversion)"""
+    if k % 2 == 0:
+        return str(v)
+    return v.item() if isinstance(v.item(), (D, DT)) else str(v)
+
+
+def run_flat_history(bid, hist, sink_ops, rp):
+    """returns (index, candidate models, attempted labels) or None when the history was cut short by a reported failure"""
+    b = FLAT_BASES[bid]
+    ix = build_flat_base(bid)
+    unit = b.get('unit')
+    fresh = list(typed_fresh(unit)) if unit else list(b['fresh'])
+    other = list(b.get('other', []))
+    cands = [list(b['labels'])]
+    tried = []
+    fi = oi = 0
+    held_reads = []
+
+    def conv(v):
+        return to_unit(v, unit) if unit else v
+
+    def K(c):
+        return f'{PID}:go:history:{c}'
+
+    for step, op in enumerate(hist):
+        if op == 'R':
+            o = obs(lambda: (ix.values, ix.positions, len(ix), list(ix)))
+            if o[0] == 'exc':
+                sink_ops.fail((b.get('onekey') or hist_key('plain', hist[:step])) if ('X' in hist[:step] or 'Q' in hist[:step] or b.get('onekey')) else K(f'read-raises:{type(o[1]).__name__}'), f'reading values/positions/len/iter raises {o[1]!r} after history {hist[:step]!r} on base {bid}', rp)
+                return None
+            held_reads.append(o[1][0])
+            continue
+        # the labels this operation submits
+        if op == 'A':
+            items, call = [fresh[fi]], 'append'
+            fi += 1
+        elif op == 'O':
+            if unit:
+                items, call = [alt_form(fresh[fi], fi)], 'append'
+                fi += 1
+            else:
+                items, call = [other[oi]], 'append'
+                oi += 1
+        elif op == 'N':
+            items, call = [len(cands[0])], 'append'
+        elif op in 'DX' and not cands[0]:
+            return 'skip'  # nothing to duplicate
+        elif op == 'D':
+            items, call = [cands[0][0]], 'append'
+        elif op == 'Q':
+            items, call = [b['pyeq']], 'append'
+        elif op == 'E':
+            items, call = [fresh[fi], fresh[fi + 1]], 'extend'
+            fi += 2
+        elif op == 'G':
+            items, call = [fresh[fi]], 'extend-gen'
+            fi += 1
+        elif op == 'X':
+            items, call = [fresh[fi], cands[0][0]], 'extend'
+            fi += 1
+        tried.extend(conv(v) for v in items)
+        if call == 'append':
+            o = obs(lambda: ix.append(items[0]))
+        elif call == 'extend':
+            o = obs(lambda: ix.extend(list(items)))
+        else:
+            o = obs(lambda: ix.extend(v for v in items))
+        raised = o[0] == 'exc'
+        new_cands = []
+        for c in cands:
+            cur, stopped, prefixes = list(c), False, [list(c)]
+            must_ok, must_raise = True, False
+            for v in items:
+                st = label_status(conv(v), cur)
+                if st == 'dup':
+                    must_ok, must_raise, stopped = False, True, True
+                    break
+                if st == 'ambig':
+                    must_ok = False
+                    prefixes.append(list(cur))  # may stop here ...
+                cur = cur + [conv(v)]            # ... or go on
+            if raised:
+                if not must_ok:
+                    # no atomicity demanded (that is C09): the untouched model or any accepted prefix
+                    pre = [list(c)]
+                    acc = list(c)
+                    for v in items:
+                        if label_status(conv(v), acc) == 'dup':
+                            break
+                        acc = acc + [conv(v)]
+                        pre.append(list(acc))
+                    new_cands.extend(pre[:-1] if not stopped and len(pre) > 1 else pre)
+            else:
+                if not must_raise:
+                    new_cands.append(cur)
+        if not new_cands:
+            if raised:
+                sink_ops.fail(K(f'growth-by-new-label-raises:{type(o[1]).__name__}' + (':after-py-equal-append' if 'Q' in hist[:step] else '')),
+                              f'{call}({items!r}) raises {o[1]!r} although no submitted label is held; base {bid}, history {hist[:step + 1]!r}, labels {cands[0]!r}', rp)
+            else:
+                sink_ops.fail(K('growth-by-held-label-accepted'),
+                              f'{call}({items!r}) returned normally although a submitted label is already held; base {bid}, history {hist[:step + 1]!r}, labels {cands[0]!r}', rp)
+            return None
+        # dedupe candidates
+        seen, cands = set(), []
+        for c in new_cands:
+            k = tuple(norm(x) for x in c)
+            if k not in seen:
+                seen.add(k)
+                cands.append(c)
+    return ix, cands, tried
+
+
+def check_candidates(rep, ix, cands, rp, extra, group='history', onekey=None, onekey_probes=None):
+    sinks = []
+    for c in cands:
+        s = Sink()
+        contract(s, ix, c, rp, extra_probes=[p for p in extra if not any(py_equal(p, l) for l in c)], group=group, onekey=onekey, onekey_probes=onekey_probes)
+        if not s.failures:
+            return True
+        sinks.append(s)
+    sinks[0].flush(rep)
+    return False
+
+
+def histories(ops, maxlen):
+    for n in range(1, maxlen + 1):
+        for h in itertools.product(ops, repeat=n):
+            yield ''.join(h)
+
+
+def valid_flat_hist(bid, h):
+    b = FLAT_BASES[bid]
+    if b['pyeq'] is None and 'Q' in h:
+        return False
+    if b.get('unit') and 'N' in h:
+        return False
+    if 'RR' in h:
+        return False
+    if not b['labels'] and h[0] in 'DX':
+        return False  # nothing to duplicate yet: covered by histories that append first
+    return True
+
+
+def hist_key(kind, hist):
+    return (f'{PID}:{kind}:history:views-disagree-after-growth' + (':py-equal-append' if 'Q' in hist else '')
+            + (':rejected-extend' if 'X' in hist else ''))
+
+
+def eval_flat_history(rep, bid, hist, count=True):
+    rp = dict(area='hist', base=bid, hist=hist)
+    b = FLAT_BASES[bid]
+    kind = 'auto' if b.get('via') in ('factory', 'framego') else ('dt' if b.get('unit') else 'plain')
+    r = run_flat_history(bid, hist, rep, rp)
+    if r == 'skip':
+        return
+    if count:
+        rep.count(distinct_key=('hist', bid, hist), sample=rp)
+    if r is None:
+        return
+    ix, cands, tried = r
+    key = b.get('onekey') or hist_key(kind, hist)
+    check_candidates(rep, ix, cands, rp, tried, onekey=key, onekey_probes=b.get('onekey'))
+
+
+IH_BASES = {
+    'ihgo-t2a': dict(rows=[('a', 1), ('a', 2), ('b', 1)], ctors=None, how='from_labels-list', outer=['c', 'd', 'e', 'f', 'g', 'h', 'i', 'j', 'k', 'l'], leaf=[50, 51, 52, 53, 54, 55, 56, 57]),
+    'ihgo-t2b': dict(rows=[('b', 2), ('a', 1)], ctors=None, how='from_labels-list', outer=['c', 'd', 'e', 'f', 'g', 'h', 'i', 'j', 'k', 'l'], leaf=[50, 51, 52, 53, 54, 55, 56, 57]),
+    'ihgo-t3': dict(rows=[('a', 1, 'x'), ('a', 2, 'x'), ('b', 1, 'y')], ctors=None, how='from_labels-list', outer=['c', 'd', 'e', 'f', 'g', 'h', 'i', 'j', 'k', 'l'], leaf=['p', 'q', 'r', 's', 't', 'u', 'v', 'w'],
+                    mid=[60, 61, 62, 63, 64, 65, 66, 67]),
+    'ihgo-e2': dict(rows=[], ctors=None, how='from_labels-list', outer=['c', 'd', 'e', 'f', 'g', 'h', 'i', 'j', 'k', 'l'], leaf=[50, 51, 52, 53, 54, 55, 56, 57]),
+    'ihgo-date': dict(rows=[(D1, 'a'), (D3, 'a')], ctors=('IndexDate', 'Index'), how='from_labels-list', outer=[D(2031, 1, i) for i in range(1, 11)], leaf=['p', 'q', 'r', 's', 't', 'u', 'v', 'w']),
+    'ihgo-product': dict(rows=[('a', 1), ('a', 2), ('b', 1), ('b', 2)], ctors=None, how='from_product', outer=['c', 'd', 'e', 'f', 'g', 'h', 'i', 'j', 'k', 'l'], leaf=[50, 51, 52, 53, 54, 55, 56, 57]),
+    'ihgo-items': dict(rows=[('a', 1), ('b', 1), ('b', 2)], ctors=None, how='from_index_items', outer=['c', 'd', 'e', 'f', 'g', 'h', 'i', 'j', 'k', 'l'], leaf=[50, 51, 52, 53, 54, 55, 56, 57]),
+    'ihgo-from-static': dict(rows=[('a', 1), ('b', 1)], ctors=None, how='ctor-from-ih', outer=['c', 'd', 'e', 'f', 'g', 'h', 'i', 'j', 'k', 'l'], leaf=[50, 51, 52, 53, 54, 55, 56, 57]),
+    'ihgo-tree': dict(rows=[('a', 1, 'x'), ('b', 1, 'x'), ('b', 1, 'y')], ctors=None, how='from_tree', outer=['c', 'd', 'e', 'f', 'g', 'h', 'i', 'j', 'k', 'l'], leaf=['p', 'q', 'r', 's', 't', 'u', 'v', 'w'],
+                      mid=[60, 61, 62, 63, 64, 65, 66, 67]),
+}
+IH_OPS = 'LUMPDFEXR'
+
+
+def valid_ih_hist(bid, h):
+    b = IH_BASES[bid]
+    depth = len(b['rows'][0]) if b['rows'] else 2
+    if depth < 3 and 'M' in h:
+        return False
+    if 'RR' in h:
+        return False
+    return True
+
+
+def run_ih_history(bid, hist, sink_ops, rp):
+    import static_frame as sf
+    b = IH_BASES[bid]
+    ix = build_ih(sf.IndexHierarchyGO, list(b['rows']), b['how'], b['ctors'])
+    depth = len(b['rows'][0]) if b['rows'] else 2
+    ic = ctor_objs(b['ctors'])
+    kw = dict(index_constructors=ic) if ic else {}
+    cands = [list(b['rows'])]
+    tried = []
+    oi = li = mi = 0
+
+    def K(c):
+        return f'{PID}:ih:history:{c}'
+
+    for step, op in enumerate(hist):
+        c0 = cands[0]
+        if op == 'R':
+            o = obs(lambda: (ix.values, [ix.values_at_depth(d) for d in range(depth)], len(ix), list(ix), ix.positions))
+            if o[0] == 'exc':
+                sink_ops.fail(hist_key('ih', hist[:step]) if 'X' in hist[:step] else K(f'read-raises:{type(o[1]).__name__}'), f'reading values/values_at_depth/len/iter raises {o[1]!r} after history {hist[:step]!r} on base {bid}', rp)
+                return None
+            continue
+        if op in 'LMPDF' and not c0:
+            return 'skip'
+        ext = None
+        if op == 'L':
+            row = c0[-1][:-1] + (b['leaf'][li],)
+            li += 1
+        elif op == 'U':
+            row = (b['outer'][oi],) + (c0[0][1:] if c0 else (tuple(b.get('mid', [])[:1]) * (depth - 2) + (b['leaf'][li],)))
+            oi += 1
+        elif op == 'M':
+            row = c0[-1][:1] + (b['mid'][mi],) + c0[-1][2:]
+            mi += 1
+        elif op in 'PF':
+            first = c0[0]
+            if eq(first[:-1], c0[-1][:-1]):
+                return 'skip'  # only one parent path: nothing "non-last"
+            row = first if op == 'F' else first[:-1] + (b['leaf'][li],)
+            if op == 'P':
+                li += 1
+        elif op == 'D':
+            row = c0[-1]
+        elif op in 'EX':
+            o1 = b['outer'][oi]
+            oi += 1
+            inner = (c0[0][1:] if c0 else (tuple(b.get('mid', [])[:1]) * (depth - 2) + (b['leaf'][li],)))
+            inner2 = inner[:-1] + (b['leaf'][li + 1],)
+            li += 2
+            if op == 'E':
+                ext = [(o1,) + inner, (o1,) + inner2]
+            else:
+                if not c0:
+                    return 'skip'
+                ext = [(o1,) + inner, (c0[0][0],) + inner2]
+        if ext is None:
+            tried.append(row)
+            o = obs(lambda: ix.append(row))
+            raised = o[0] == 'exc'
+            new_cands = []
+            for c in cands:
+                valid = is_tree_order(c + [row])
+                if raised and not valid:
+                    new_cands.append(c)
+                elif not raised and valid:
+                    new_cands.append(c + [row])
+            if not new_cands:
+                if raised:
+                    sink_ops.fail(K(f'append-of-valid-label-raises:{type(o[1]).__name__}'), f'append({row!r}) raises {o[1]!r}; base {bid}, history {hist[:step + 1]!r}, rows {c0!r}', rp)
+                else:
+                    why = 'held-label' if not all_distinct(c0 + [row]) else 'non-tree-label'
+                    shown = obs(lambda: list(ix))
+                    sink_ops.fail(K('append-under-non-last-parent-accepted' if op in 'PF' else f'append-of-{why}-accepted'),
+                                  f'append({row!r}) returned normally on rows {c0!r} (the result is not a tree in the given order / repeats a label); the index now lists {shown[1]!r}', rp)
+                return None
+        else:
+            tried.extend(ext)
+            operand = sf.IndexHierarchy.from_labels(list(ext), **kw)
+            o = obs(lambda: ix.extend(operand))
+            raised = o[0] == 'exc'
+            new_cands = []
+            for c in cands:
+                valid = is_tree_order(c + ext)
+                disjoint = not any(eq(e[0], r[0]) for e in ext for r in c)
+                if raised and not (valid and disjoint):
+                    new_cands.append(c)
+                    new_cands.append(c + ext[:1])  # no atomicity demanded here (C09)
+                elif not raised and valid:
+                    new_cands.append(c + ext)
+            if not new_cands:
+                if raised:
+                    sink_ops.fail(K(f'extend-by-new-subtrees-raises:{type(o[1]).__name__}'), f'extend({ext!r}) raises {o[1]!r}; base {bid}, history {hist[:step + 1]!r}, rows {c0!r}', rp)
+                else:
+                    sink_ops.fail(K('extend-by-held-outer-label-accepted'), f'extend({ext!r}) returned normally on rows {c0!r}', rp)
+                return None
+        seen, cands = set(), []
+        for c in new_cands:
+            k = tuple(norm(x) for x in c)
+            if k not in seen:
+                seen.add(k)
+                cands.append(c)
+    return ix, cands, tried
+
+
+def eval_ih_history(rep, bid, hist, count=True):
+    rp = dict(area='ih-hist', base=bid, hist=hist)
+    r = run_ih_history(bid, hist, rep, rp)
+    if r == 'skip':
+        return
+    if count:
+        rep.count(distinct_key=('ih-hist', bid, hist), sample=rp)
+    if r is None:
+        return
+    ix, cands, tried = r
+    key = hist_key('ih', hist)
+    check_candidates(rep, ix, cands, rp, tried, onekey=key)
+
+
+# ---------------------------------------------------------------------------------------------
+# drivers
+
+class Rep(Report):
+    """Report whose failure records carry their key inside the replay data"""
+    def check(self, cond, key, what, replay=None):
+        if cond:
+            return True
+        return Report.check(self, cond, key, what, dict(replay or {}, key=key))
+
+
+FLAT_OPS_SMALL = 'AQXRN'
+IH_OPS_SMALL = 'LUPXR'
+
+
+def hist_blocks(tier):
+    full, plen = (3, 1) if tier == 'quick' else (4, 2)
+    for bid in FLAT_BASES:
+        for prefix in itertools.product(FLAT_OPS, repeat=plen):
+            yield dict(area='hist-block', base=bid, prefix=''.join(prefix), full=full)
+    for bid in IH_BASES:
+        for prefix in itertools.product(IH_OPS, repeat=plen):
+            yield dict(area='ih-hist-block', base=bid, prefix=''.join(prefix), full=full)
+
+
+def block_histories(case):
+    flat = case['area'] == 'hist-block'
+    ops, small = (FLAT_OPS, FLAT_OPS_SMALL) if flat else (IH_OPS, IH_OPS_SMALL)
+    valid = valid_flat_hist if flat else valid_ih_hist
+    prefix, full = case['prefix'], case['full']
+    plen = len(prefix)
+    if plen == 2 and prefix[1] == ops[0]:
+        # histories shorter than the prefix length are attached to one block
+        if valid(case['base'], prefix[0]):
+            yield prefix[0]
+    for n in range(plen, full + 1):
+        for rest in itertools.product(ops, repeat=n - plen):
+            h = prefix + ''.join(rest)
+            if valid(case['base'], h):
+                yield h
+    if all(c in small for c in prefix):
+        for rest in itertools.product(small, repeat=full + 1 - plen):
+            h = prefix + ''.join(rest)
+            if valid(case['base'], h):
+                yield h
+
+
+def all_cases(tier, parts):
+    import json
+    import zlib
+    out = []
+    if 'flat' in parts:
+        out.extend(flat_cases(tier))
+    if 'hier' in parts:
+        out.extend(ih_cases(tier))
+    if 'hist' in parts:
+        out.extend(hist_blocks(tier))
+    # fixed pseudo-random order so that modulo-sharding spreads the heavy cases evenly
+    out.sort(key=lambda c: (zlib.crc32(json.dumps(c, sort_keys=True).encode()), json.dumps(c, sort_keys=True)))
+    return out
+
+
+def eval_case(rep, case, only=None):
+    area = case['area']
+    if area in ('flat', 'dup', 'typed', 'auto', 'ctor-dtype', 'special'):
+        eval_flat_case(rep, case, only=only)
+    elif area in ('ih', 'ih-bad', 'ih-bad-special'):
+        eval_ih_case(rep, case, only=only)
+    elif area == 'hist-block':
+        for h in block_histories(case):
+            eval_flat_history(rep, case['base'], h)
+    elif area == 'ih-hist-block':
+        for h in block_histories(case):
+            eval_ih_history(rep, case['base'], h)
+    elif area == 'hist':
+        eval_flat_history(rep, case['base'], case['hist'])
+    elif area == 'ih-hist':
+        eval_ih_history(rep, case['base'], case['hist'])
+    else:
+        raise KeyError(area)
+
+
+RULE = ('label lists of 12 families (int, str, bool, float incl. one NaN list, tuple, date, datetime64 D/s/Y/M/ns, mixed object; empty; 6 input forms incl. generators and arrays) '
+        'x Index/IndexGO, 9 typed datetime classes and their GO forms, 13 sources of auto-integer indices (n <= 4), 12 label trees x 17 hierarchy construction routes; '
+        'each index is pushed through every derivation route (selection, drop, relabel, roll, sort, set operations, level_add/level_drop/flat, astype, rename/copy, containers, rehierarch); '
+        'duplicate / non-tree inputs must raise ErrorInitIndex*; grow-only histories over 9 operations (fresh/other-typed/duplicate/Python-equal appends, extends incl. a failing one, cache reads). '
+        'A case is non-trivial when the index under test holds >= 1 label or a rejection is expected; every history is non-trivial.')
+
+
+def _run(task, parts, name):
+    tier = task.get('tier', 'quick')
+    bound = ('labels per index <= 5 (+ <= 8 appended); hierarchies depth 2-4 with <= 4 rows; histories of length <= '
+             + ('3 over 9 operations + length 4 over 5 operations' if tier == 'quick' else '4 over 9 operations + length 5 over 5 operations')
+             + '; 15 flat and 9 hierarchical grow-only bases')
+    rep = Rep(name, task, rule=RULE, bound=bound)
+    rep.trusted.add('numpy casts (astype) and Python sorted() are used to state the expected labels of astype / sort routes')
+    rep.assumptions.add('a probe that is Python-equal to a held label of another type (1.0 vs 1, True vs 1, datetime64 of another unit) carries no demand')
+    rep.assumptions.add('an exception raised by `label in index` for a foreign-typed probe counts as "not contained"')
+    for case in rep.shard(all_cases(tier, parts)):
+        try:
+            eval_case(rep, case)
+        except Exception:
+            rep.error(repr(case))
+    return rep.done()
+
+
+def run(repo, task):
+    return _run(task, ('flat', 'hier', 'hist'), 'C02-index-bijection')
+
+
+def run_flat(repo, task):
+    return _run(task, ('flat',), 'C02-index-bijection-flat')
+
+
+def run_hier(repo, task):
+    return _run(task, ('hier',), 'C02-index-bijection-hier')
+
+
+def run_hist(repo, task):
+    return _run(task, ('hist',), 'C02-index-bijection-hist')
+
+
+def replay(repo, rp):
+    case = {k: v for k, v in rp.items() if k not in ('task', 'key', 'route')}
+    rep = Rep('C02-replay', dict(tier='quick'), rule='', bound='')
+    try:
+        eval_case(rep, case, only=rp.get('route')) if case['area'] not in ('hist', 'ih-hist') else eval_case(rep, case)
+    except Exception as e:
+        return dict(outcome='error', detail=repr(e))
+    key = rp.get('key')
+    hit = rep.failures.get(key) if key else (next(iter(rep.failures.values())) if rep.failures else None)
+    if hit:
+        return dict(outcome='fail', key=hit['key'], what=hit['what'])
+    return dict(outcome='pass', evaluations=rep.evaluations, other_failures=sorted(rep.failures))
